@@ -192,12 +192,12 @@ Definition step (s : st) (l : label) : option (st * list ev) :=
       end end
   end.
 
-(* how the transport's owner uses it: the watermark pool waits for Open() before lending the sink; a sink is opened
-   once (pools and the resurrector replace a closed sink by a new one) *)
+(* how the transport's owner uses it: the watermark pool waits for Open() before lending the sink, and Open() is
+   not called on a sink that carries a request.  A closed or faulted sink MAY be opened again (a new incarnation). *)
 Definition usage_ok (s : st) (l : label) : bool :=
   match l with
   | LReq _ => match opn s with None => true | _ => false end
-  | LOpen => match proc s, cst s with None, Idle => true | _, _ => false end
+  | LOpen => match proc s with None => true | _ => false end
   | _ => true
   end.
 
